@@ -850,7 +850,7 @@ func (e *Engine) VerifyFunction(fc *FuncContract) *FuncResult {
 	}
 	// proved postconditions of `pure` functions are available as quantified facts about their function symbols
 	for _, pfc := range e.sortedContracts() {
-		if !pfc.Pure || pfc.PureRefs || pfc.Extern || pfc == fc || len(pfc.Ensures) == 0 {
+		if (!pfc.Pure && !pfc.PureRefs) || pfc.Extern || pfc == fc || len(pfc.Ensures) == 0 {
 			continue
 		}
 		if ax := x.pureAxiom(pfc); ax != "" {
